@@ -418,6 +418,9 @@ class _Enc:
         if tok[0] == "valbytes":
             # `length` bounds the input bytes the decoder may consume: the index stream follows the width byte
             ok = ok and length >= VAL_LEN - 1
+        if tok[0] == "defbytes":
+            # ... and so it does for a level stream: all of its DEF_LEN bytes may be needed (runs of few values)
+            ok = ok and length >= DEF_LEN
         if tok[0] == "defbytes" and ok:
             _fill(o, tok[1], length)
         elif tok[0] == "valbytes" and ok:
@@ -626,6 +629,36 @@ def _series(vals):
     return ser
 
 
+def _levels_probe(levels):
+    """the NULL layout of the witness in a spec-built v2 file whose definition levels are RLE runs of ONE value each
+    (two bytes per row: the level stream is longer than the number of values)"""
+    import shutil, tempfile
+    import fastparquet
+    from vf.pyshim import flat_file
+    d = tempfile.mkdtemp(prefix="v2-")
+    try:
+        fn = os.path.join(d, "lv.parq")
+        lv = list(levels) + [1, 0, 1, 1, 0, 1, 1, 1]
+        nulls = [x != 1 for x in lv]
+        idx = [i % 4 for i in range(sum(1 for x in nulls if not x))]
+        dictionary = [100, 101, 102, 103]
+        flat_file.build_dict(fn, dictionary, idx, 2, nulls=nulls, optional=True, version=2, rle_levels=True)
+        try:
+            out = fastparquet.ParquetFile(fn).to_pandas()["x"]
+        except Exception as ex:
+            return True, "v2 page whose %d definition levels are %d single-value RLE runs (%d bytes): read fails: %s" % (
+                len(lv), len(lv), 2 * len(lv), type(ex).__name__)
+        got = [None if pd.isna(x) else int(x) for x in out.astype(object)]
+        it = iter(idx)
+        want = [None if n else dictionary[next(it)] for n in nulls]
+        if got != want:
+            return True, ("v2 page whose %d definition levels are single-value RLE runs (%d bytes of levels): rows read "
+                          "%r, the page holds %r" % (len(lv), 2 * len(lv), got[:10], want[:10]))
+        return False, "agrees"
+    finally:
+        shutil.rmtree(d, ignore_errors=True)
+
+
 def _concrete(levels, codes, mask=None):
     """a real v2 file holding the witness's column, read through ParquetFile.to_pandas (with the row mask, if any).
     Files are written by this library page by page; DELTA pages, INT64 dictionary columns and every file that must
@@ -659,6 +692,10 @@ def _concrete(levels, codes, mask=None):
             vi += 1
         else:
             vals.append(None)
+    if OPTIONAL and any(lv != 1 for lv in levels) and mask is None:
+        r = _levels_probe(levels)
+        if r[0]:
+            return r
     spec_dict = ENC == "dict" and PHYS == "int64" and not (OUT == "cat" and SELFMADE)
     if OUT == "cat" and not SELFMADE and WIDTH < 2:
         return None, "dictionary indices 0..3 need two bits"
